@@ -246,8 +246,9 @@ def cof_f(n, M, i, j):
 class Env:
     """Random polynomial fields for terminals.  value(t, comp, side) -> Jet."""
 
-    def __init__(self, nv=2, order=3, seed=0, degree=2, positive=False, overrides=None):
+    def __init__(self, nv=2, order=3, seed=0, degree=2, positive=False, overrides=None, complex_values=False):
         self.nv, self.order, self.degree = nv, order, degree
+        self.complex_values = complex_values
         self.rng = random.Random(seed)
         self.cache = {}
         self.positive = positive
@@ -268,6 +269,8 @@ class Env:
         for a in itertools.product(range(deg + 1), repeat=self.nv):
             if sum(a) <= deg and sum(a) <= self.order:
                 v = Fraction(self.rng.randint(-5, 5), self.rng.choice([1, 2, 3]))
+                if self.complex_values:
+                    v = complex(float(v), self.rng.randint(-4, 4) / 2.0)
                 if v != 0:
                     c[a] = v
         if self.positive or c.get((0,) * self.nv, 0) == 0:
@@ -370,10 +373,13 @@ def _ev1(e, env, rho, c, side, memo):
     if n == "Abs":
         a = ev(ops[0], c)
         return a if a.value() >= 0 else -a
-    if n in ("Conj", "Real"):
-        return ev(ops[0], c)
-    if n == "Imag":
-        return env.zero()
+    if n in ("Conj", "Real", "Imag"):
+        a = ev(ops[0], c)
+        if not getattr(env, "complex_values", False):
+            return a if n != "Imag" else env.zero()
+        f = {"Conj": lambda z: complex(z).conjugate(), "Real": lambda z: complex(z).real,
+             "Imag": lambda z: complex(z).imag}[n]
+        return Jet(a.nv, a.order, {k: f(v) for k, v in a.c.items() if f(v) != 0})
     if n == "Indexed":
         return ev(ops[0], tuple(_idx(i, rho) for i in ops[1]))
     if n == "IndexSum":
@@ -449,11 +455,16 @@ def _ev1(e, env, rho, c, side, memo):
         return ev(ops[0], c[::-1])
     if n == "Outer":
         ra = len(ops[0].ufl_shape)
-        return ev(ops[0], c[:ra]) * ev(ops[1], c[ra:])
+        a = ev(ops[0], c[:ra])
+        if getattr(env, "complex_values", False):
+            a = Jet(a.nv, a.order, {k: complex(v).conjugate() for k, v in a.c.items()})
+        return a * ev(ops[1], c[ra:])
     if n == "Inner":
         tot = env.zero()
+        cj = (lambda j: Jet(j.nv, j.order, {k: complex(v).conjugate() for k, v in j.c.items()})) \
+            if getattr(env, "complex_values", False) else (lambda j: j)
         for I in itertools.product(*[range(d) for d in ops[0].ufl_shape]):
-            tot = tot + ev(ops[0], I) * ev(ops[1], I)
+            tot = tot + ev(ops[0], I) * cj(ev(ops[1], I))
         return tot
     if n == "Dot":
         ra = len(ops[0].ufl_shape) - 1
@@ -533,7 +544,10 @@ def find_mismatch(out, inp, trials=40, seed=0, nv=None, env_factory=None, order=
         nv = 3
     comps = list(itertools.product(*[range(d) for d in out.ufl_shape]))
     for t in range(trials):
-        env = env_factory(rng.randrange(10**9)) if env_factory else Env(nv=nv, order=order, seed=rng.randrange(10**9))
+        # second half of the trials: complex-valued fields (conj / real / imag conventions)
+        cplx = (not env_factory) and t >= trials // 2
+        env = env_factory(rng.randrange(10**9)) if env_factory else \
+            Env(nv=nv, order=order, seed=rng.randrange(10**9), complex_values=cplx)
         for rho in free_index_valuations(out, rng, 2):
             for c in comps:
                 try:
@@ -541,7 +555,9 @@ def find_mismatch(out, inp, trials=40, seed=0, nv=None, env_factory=None, order=
                     b = evaluate(inp, env, rho, c)
                 except ZeroDivisionError:
                     continue
-                except (Unsupported, ValueError, OverflowError):
+                except (Unsupported, ValueError, OverflowError, TypeError):
+                    if cplx:
+                        break
                     return None
                 if not a.close_to(b):
                     return {"component": list(c), "free_index_values": {str(k): v for k, v in rho.items()},
